@@ -158,6 +158,24 @@ class Session:
             elif kind == "write":
                 # the reactions written to a file (as `export` does for reactions.naunet): read-only in intent
                 self.net.write(os.path.join(self.dir, "written_reactions.txt"), st.get("fmt", "naunet"))
+            elif kind == "repickle":
+                # the session is continued from a file: a helper interpreter under ANOTHER string-hash salt
+                # builds the same network by the same (non-rendering) steps and pickles it; this process
+                # goes on with the loaded object.  Read-only in intent.  Skipped if pickling does not work.
+                import json as _json
+                import pickle
+                import subprocess
+                import sys as _sys
+
+                job = _json.dumps({"desc": self.desc, "upto": self.pc, "workdir": self.dir + "-pk"})
+                code = "import sys;sys.path.insert(0,%r);from sim import c17_session;c17_session._repickle_child()" % K.VERIF
+                try:
+                    pr = subprocess.run([_sys.executable, "-c", code], input=job.encode(), capture_output=True, timeout=300,
+                                        env=dict(os.environ, PYTHONHASHSEED=str(st.get("hashseed", 777)), NAUNET_REPO=K.REPO))
+                    if pr.returncode == 0 and pr.stdout:
+                        self.net = pickle.loads(pr.stdout)
+                except (pickle.PickleError, AttributeError, TypeError, EOFError, subprocess.TimeoutExpired):
+                    pass
             elif kind == "enzo_patch":
                 # patch files for a host code, generated from the network (read-only in intent).  Whether
                 # the patch generator supports this kind of network is not C17's business: only what it
@@ -306,3 +324,23 @@ def _copy(x):
     import copy
 
     return copy.deepcopy(x)
+
+
+def _repickle_child():
+    """Entry point of the helper interpreter of the `repickle` step."""
+    import json as _json
+    import pickle
+    import sys as _sys
+
+    job = _json.loads(_sys.stdin.buffer.read().decode())
+    s = Session(job["desc"], job["workdir"])
+    while s.pc < job["upto"]:
+        st = s.peek()
+        if st["s"] in ("render", "to_code", "export", "cli_render", "repickle", "write", "enzo_patch", "touch"):
+            s.pc += 1
+            continue
+        s.step()
+    out = pickle.dumps(s.net)
+    _sys.stdout.buffer.write(out)
+    _sys.stdout.buffer.flush()
+    shutil.rmtree(job["workdir"], ignore_errors=True)
